@@ -13,7 +13,7 @@ import numpy as np
 import pandas as pd
 
 from histsim import core
-from histsim.core import LineTracer, SimInterrupt, fingerprint_arg
+from histsim.core import LineTracer, SimAllocFail, SimInterrupt, fingerprint_arg
 
 EPS = np.finfo(float).eps
 C = 8.0
@@ -275,7 +275,7 @@ class Sim:
         fault = st.get("fault")
         try:
             if fault:
-                tr = LineTracer(int(fault["at"]))
+                tr = LineTracer(int(fault["at"]), alloc=bool(fault.get("alloc")))
                 tr.run(lambda: self.cost.fit(arg))
             else:
                 self.cost.fit(arg)
@@ -284,7 +284,7 @@ class Sim:
             self.fitted = st["d"]
             self.fit_epoch += 1
             ev["res"] = "ok"
-        except SimInterrupt:
+        except (SimInterrupt, SimAllocFail):
             self.fitted = None
             self.stats["faults_fired"]["interrupt"] += 1
             ev["res"] = "int"
@@ -292,6 +292,11 @@ class Sim:
         except ValueError:
             # documented rejection of a parameter that does not match the data
             self.fitted = None
+            if fault and fault.get("alloc") and tr.fired_at is not None:
+                self.stats["faults_fired"]["interrupt"] += 1
+                ev["res"] = "int"
+                ev["tag"] = "int"
+                return
             self.stats["faults_fired"]["bad_param"] += 1
             ev["res"] = "exc:ValueError"
             if self.param_ok_for(X):
@@ -340,12 +345,12 @@ class Sim:
         core.budget_start()
         try:
             if fault:
-                tr = LineTracer(int(fault["at"]))
+                tr = LineTracer(int(fault["at"]), alloc=bool(fault.get("alloc")))
                 tr.run(go)
             else:
                 go()
             ev["res"] = "ok"
-        except SimInterrupt:
+        except (SimInterrupt, SimAllocFail):
             self.stats["faults_fired"]["interrupt"] += 1
             ev["res"] = "int"
             ev["tag"] = "int"
@@ -398,26 +403,32 @@ class Sim:
         self.stats["batches"] += 1
         try:
             if fault:
-                tr = LineTracer(int(fault["at"]))
+                tr = LineTracer(int(fault["at"]), alloc=bool(fault.get("alloc")))
                 out = tr.run(lambda: self.cost.evaluate(arg))
             else:
                 out = self.cost.evaluate(arg)
-        except SimInterrupt:
+        except (SimInterrupt, SimAllocFail):
             self.stats["faults_fired"]["interrupt"] += 1
             ev["res"] = "int"
             ev["tag"] = "int"
             return
-        except RuntimeError as ex:
+        except Exception as ex:  # noqa: BLE001
+            if fault and fault.get("alloc") and tr.fired_at is not None:
+                # the injected allocation failure left the call as another exception
+                self.stats["faults_fired"]["interrupt"] += 1
+                ev["res"] = "int"
+                ev["tag"] = "int"
+                return
+            if not isinstance(ex, RuntimeError):
+                ev["res"] = "exc:" + type(ex).__name__
+                self.violate("unexpected_error", "evaluate", i, {"error": f"{type(ex).__name__}: {ex}"[:300], "cuts": cuts.tolist(), "param": json.dumps(self.param_spec)})
+                return
             self.stats["batches_raised"] += 1
             self.stats["faults_fired"]["singular"] += 1
             ev["res"] = "exc:RuntimeError"
             ev["tag"] = "singular"
             if not any(isinstance(r_, str) and r_ in ("raise", "either", "unjudged") for r_ in refs):
                 self.violate("unexpected_raise", "evaluate", i, {"error": str(ex)[:200], "cuts": cuts.tolist(), "param": json.dumps(self.param_spec)})
-            return
-        except Exception as ex:  # noqa: BLE001
-            ev["res"] = "exc:" + type(ex).__name__
-            self.violate("unexpected_error", "evaluate", i, {"error": f"{type(ex).__name__}: {ex}"[:300], "cuts": cuts.tolist(), "param": json.dumps(self.param_spec)})
             return
         finally:
             self.perm_rng = None
@@ -610,11 +621,15 @@ def _gen_step(rng, sim, cfg, datasets):
         st = {"op": "fit", "d": int(rng.choice(cands)), "container": str(rng.choice(["ndarray", "df"])), "dtype": str(rng.choice(["float64", "float64", "int64"]))}
         if "interrupt" in cfg["faults"] and rng.random() < cfg["p_fault"]:
             st["fault"] = {"kind": "interrupt", "at": int(rng.integers(1, 12))}
+            if rng.random() < 0.3:
+                st["fault"]["alloc"] = True
         return st
     if r < 0.33 and cfg["det_runs"]:
         st = {"op": "det_run", "det": DET_MENU[int(rng.integers(len(DET_MENU)))]}
         if "interrupt" in cfg["faults"] and rng.random() < cfg["p_fault"]:
             st["fault"] = {"kind": "interrupt", "at": int(rng.integers(1, 400))}
+            if rng.random() < 0.3:
+                st["fault"]["alloc"] = True
         return st
     X = sim.data[sim.fitted]
     n, p = X.shape
@@ -652,6 +667,8 @@ def _gen_step(rng, sim, cfg, datasets):
         st["perm"] = int(rng.integers(1 << 30))
     if "interrupt" in cfg["faults"] and rng.random() < cfg["p_fault"]:
         st["fault"] = {"kind": "interrupt", "at": int(rng.integers(1, 40))}
+        if rng.random() < 0.3:
+            st["fault"]["alloc"] = True
     return st
 
 
